@@ -178,6 +178,32 @@ theorem kline_monotone (d : List Rat) (breaks : List Nat) (thresh : Option Rat) 
     rw [cumsum_step _ 0 i (by rw [klineSteps_length]; exact hlt), klineSteps_break d breaks thresh i hi]
     ring
 
+/-- T5' (the path coordinate is the ARC LENGTH).  Entry `i` of `getKline` is the SUM of the step lengths
+    `|k_{t+1} − k_t|` for `t < i` — with the steps at breaks (and above `break_thresh`) replaced by 0 —
+    whatever the labels of the path are: no other quantity (e.g. the straight-line distance from the last
+    labelled point) is admissible. -/
+theorem kline_arc_length (d : List Rat) (breaks : List Nat) (thresh : Option Rat) (i : Nat) (hi : i ≤ d.length) :
+    (kline d breaks thresh).getD i 0 = ((klineSteps d breaks thresh).take i).sum := by
+  unfold kline
+  rw [cumsum_getD _ 0 i (by rw [klineSteps_length]; exact hi)]
+  ring
+
+/-- without breaks and threshold the steps are the distances themselves -/
+theorem kline_arc_length_plain (d : List Rat) (i : Nat) (hi : i ≤ d.length) :
+    (kline d [] none).getD i 0 = (d.take i).sum := by
+  rw [kline_arc_length d [] none i hi]
+  congr 2
+  unfold klineSteps
+  simp
+
+/-- the chord-length rule is a different function: on the two-segment path 0 → 1 → 0 (going out and back) the arc
+    length is [0, 1, 2] while the straight-line distance from the start is [0, 1, 0] — it decreases, so it is not a
+    path coordinate (this is the behaviour of the seeded change T-C29 at an unlabelled corner). -/
+theorem chord_rule_counterexample :
+    kline (steps1 [0, 1, 0]) [] none = [0, 1, 2] ∧ chordLine [0, 1, 0] = [0, 1, 0] ∧
+      ¬ (chordLine [0, 1, 0]).Pairwise (· ≤ ·) := by
+  decide +kernel
+
 /-! ## `Path.get_K_list` -/
 
 /-- T6.  For every batch size `k_batch ≥ 1` the batches, concatenated in order, are the k-list; no batch is empty
